@@ -197,6 +197,21 @@ func init() {
 			l := fw.NewCaseList("C09", tier, seed)
 			rng := l.Rng()
 			packs := []uint64{1, 1024, 0, 0}
+			// fixed: histories in which a commit is reachable from the tip by paths of different length, fetched with
+			// a depth that lies between the two (the table must be selected by the shortest distance)
+			diamonds := [][][]int{
+				{{}, {0}, {1}, {1}, {3}, {2, 4}}, // root<-c<-a , c<-d<-b , m=(a,b)
+				{{}, {0}, {1}, {1}, {3}, {4, 2}}, // same, parents listed the other way round
+				{{}, {0}, {0}, {2}, {3}, {1, 4}},
+				{{}, {0}, {1}, {2}, {1}, {3, 4}, {5, 1}},
+			}
+			for i, sh := range diamonds {
+				for _, d := range []int{1, 2, 3} {
+					for _, op := range []string{"fetch", "fetch-pkg"} {
+						l.Add(op, netParams{Op: op, BaseRows: 4, Depth: d, Shape: sh, HavesRT: 256}, int64(2000+i*10+d))
+					}
+				}
+			}
 			for i := 0; i < l.N(60, 800); i++ {
 				p := netParams{N: 3 + rng.Intn(10), BaseRows: []int{4, 30, 300}[rng.Intn(3)], Branches: 1 + rng.Intn(3), MaxPack: packs[rng.Intn(len(packs))], Tags: rng.Intn(3) == 0}
 				switch rng.Intn(10) {
